@@ -55,17 +55,31 @@ void ares_close_connection(ares_conn_t *conn, ares_status_t requeue_status)
     server->tcp_conn = NULL;
   }
 
-  ares_buf_destroy(conn->in_buf);
+  /* The reader still needs in_buf if we got here from one of its callbacks */
+  if (!conn->is_reading) {
+    ares_buf_destroy(conn->in_buf);
+    conn->in_buf = NULL;
+  }
   ares_buf_destroy(conn->out_buf);
+  conn->out_buf = NULL;
 
   /* Requeue queries to other connections */
   ares_requeue_queries(conn, requeue_status);
 
   ares_llist_destroy(conn->queries_to_conn);
+  conn->queries_to_conn = NULL;
 
   ares_conn_sock_state_cb_update(conn, ARES_CONN_STATE_NONE);
 
   ares_socket_close(channel, conn->fd);
+
+  /* read_answers() is using this connection further up the stack, it releases
+   * the remainder when it is done */
+  if (conn->is_reading) {
+    conn->fd        = ARES_SOCKET_BAD;
+    conn->is_closed = ARES_TRUE;
+    return;
+  }
 
   ares_free(conn);
 }
